@@ -173,14 +173,19 @@ def h_reload(cx, H, battery, period, finish_first):
         cx.check("reload:energy=sum(rate*V*T)_of_its_station[%d]" % i, eq(ev.energy_delivered, e))
         bd = ev._battery._to_dict()[0]
         cx.check("reload:energy=battery_gain[%d]" % i, eq(bd["_current_charge"] - bd["_init_charge"], ev.energy_delivered))
+    ap = A.aggregate_power(sim2)
+    for t in range(n):
+        cx.check("reload:aggregate_power=voltage_weighted_sum_by_station", eq(ap[t] * 1000, sym_sum([list(df[s[0]])[t] * s[2] for s in stations])))
     vac = list(df["N-3"])
     cx.check("reload:vacant_station_has_zero_rates", all(not bool(v != 0) for v in vac[:n]))
     cx.observe("energies", [sim2.ev_history["sess%d" % i].energy_delivered for i in range(2)])
 
 
 def sim_jobs(tier, only_bounds=False):
-    S2 = [("A", "EVSE", 208, 0), ("B", "DEADBAND", 240, 0)]
-    S3 = [("A", "EVSE", 208, 0), ("B", "CC", 120, 0), ("C", "EVSE", 240, 0)]
+    # registration order is NOT the sorted order of the ids, and the voltages differ (so a per-station quantity paired with the
+    # wrong station shows up in the voltage-weighted sums)
+    S2 = [("PS-2", "EVSE", 208, 0), ("PS-1", "DEADBAND", 240, 0)]
+    S3 = [("S-30", "EVSE", 208, 0), ("S-4", "CC", 120, 0), ("S-100", "EVSE", 240, 0)]
     if tier == "quick":
         cfgs = [(S2, (0, 1), 3, "ideal", 1, 7), (S2, (0, 0), 3, "stepwise", 2, 90)]
         if only_bounds:
